@@ -199,8 +199,19 @@ def run_case(case, ctx):
             modes_arg = int(nc)
             form = "int"
         batched_arg = (list(b1), list(b2))
-        desc.update(s1=list(t1.shape), s2=list(t2.shape), modes=[m1, m2], batched=[b1, b2], form=form)
-        cls = ("batched" if nb else "plain") + ("+nocontract" if not nc else "") + "+" + form
+        neg = False
+        if form == "pair" and rs.rand() < 0.35:
+            # the same modes written as negative indices (documented: normalised by _validate_contraction_modes), independently per tensor
+            neg = True
+            o1n, o2n = t1.ndim, t2.ndim
+            pick = lambda lst, o: [(m - o if rs.rand() < 0.6 else m) for m in lst]
+            modes_arg = (pick(m1, o1n), pick(m2, o2n))
+            batched_arg = (pick(b1, o1n), pick(b2, o2n))
+            if rs.rand() < 0.5:
+                modes_arg = (tuple(modes_arg[0]), tuple(modes_arg[1]))
+                batched_arg = (tuple(batched_arg[0]), tuple(batched_arg[1]))
+        desc.update(s1=list(t1.shape), s2=list(t2.shape), modes=[m1, m2], batched=[b1, b2], form=form, negative_indices=neg, modes_arg=[list(modes_arg[0]), list(modes_arg[1])] if form == "pair" else modes_arg)
+        cls = ("batched" if nb else "plain") + ("+nocontract" if not nc else "") + "+" + form + ("+negidx" if neg else "")
         f = lambda: tenalg.tensordot(t1, t2, modes_arg, batched_modes=batched_arg)
         r = ref.tensordot(t1, t2, m1, m2, b1, b2)
     elif fn in ("mttkrp", "mttkrp_memory"):
